@@ -217,6 +217,78 @@ func runC36(c *Ctx) {
 	}
 	c.Floor(r1, 2)
 
+	// Coming from the client's list is necessary, not sufficient: a client shallow is unshallowed only if this request's
+	// walk actually passed through it (its parents are being sent). Wherever a range variable over the client's list is
+	// appended to a list of unshallowed commits, the append must be reachable only across the found-edge of a set
+	// lookup keyed by that variable (the set of commits the walk found above the boundary / in the new view).
+	const r1b = "unshallow-only-walked"
+	n1b := 0
+	for _, fi := range p.FuncsIn(trShort) {
+		if fi.Decl.Body == nil || p.isTestFile(fi.Decl.Pos()) {
+			continue
+		}
+		var f *Flow
+		k := 0
+		ast.Inspect(fi.Decl.Body, func(n ast.Node) bool {
+			rs, ok := n.(*ast.RangeStmt)
+			if !ok || rs.Value == nil {
+				return true
+			}
+			el := objOf(info, rs.Value)
+			if el == nil || !isClientShallows(fi, rs.X, 0) || isNil(info, rs.X) {
+				return true
+			}
+			// appends of the element inside this loop
+			var appends []ast.Node
+			ast.Inspect(rs.Body, func(m ast.Node) bool {
+				if as, ok := m.(*ast.AssignStmt); ok && len(as.Rhs) == 1 {
+					if call, ok := unparen(as.Rhs[0]).(*ast.CallExpr); ok && nodeHasBuiltin(info, call, "append") {
+						for _, a := range call.Args[1:] {
+							if objOf(info, a) == el {
+								appends = append(appends, as)
+							}
+						}
+					}
+				}
+				return true
+			})
+			if len(appends) == 0 {
+				return true
+			}
+			// comma-ok lookups keyed by the element
+			found := map[types.Object]bool{}
+			ast.Inspect(rs.Body, func(m ast.Node) bool {
+				if as, ok := m.(*ast.AssignStmt); ok && len(as.Lhs) == 2 && len(as.Rhs) == 1 {
+					if ix, ok := unparen(as.Rhs[0]).(*ast.IndexExpr); ok && objOf(info, ix.Index) == el {
+						if o := objOf(info, as.Lhs[1]); o != nil {
+							found[o] = true
+						}
+					}
+				}
+				return true
+			})
+			if f == nil {
+				f = p.FlowOf(fi)
+			}
+			guard := FactGuard(func(_ *Flow, fact Fact) bool {
+				return fact.Truth && found[objOf(info, fact.Atom)]
+			})
+			for _, ap := range appends {
+				for _, loc := range f.Locs(func(nd ast.Node) bool { return nd == ap }) {
+					k++
+					n1b++
+					c.Analysed(fi)
+					// search from the loop body only: start at the range statement's body
+					h := f.UnguardedPath(guard, loc)
+					c.Check(h == nil, r1b, fi.Name()+":append("+el.Name()+")"+ifStr(k > 1, "#"+itoa(k)), ap.Pos(), orStr(ifStr(h != nil, "a commit of the client's shallow list is reported as unshallowed without having been found in the set of commits this request's walk reached: a shallow commit of another branch loses its mark although none of its parents are sent"),
+						"appended only across the found-edge of a set lookup keyed by the commit"))
+				}
+			}
+			return true
+		})
+	}
+	c.Floor(r1b, 2)
+
 	// the two generic lints, over the packages that walk history for a transfer
 	pkgs := []string{trShort, "plumbing/revlist", "git", "plumbing/protocol/packp", objShort, "plumbing/storer", "plumbing/object/commitgraph", "storage/filesystem"}
 	const r2 = "iterator-element-not-discarded"
